@@ -159,7 +159,18 @@ def r4_2(prog, rep):
         leaves = [l_ for x in val for l_ in _leaves(x[2])]
         want = {f"self.contrast_matrix.matrix[{X}.codes]"}
         if q.endswith("Variable.eval_categoric"):
-            want |= {f"np.where({X} == self.reference, 1, 0)"}
+            # y[level]: any spelling of the 0/1 indicator of `<the categorical> == self.reference`
+            for l_ in leaves:
+                try:
+                    ind = shared.indicator_of(ast.parse(l_, mode="eval").body)
+                except SyntaxError:
+                    ind = None
+                try:
+                    xn = unparse(ast.parse(X, mode="eval").body) if X else X
+                except SyntaxError:
+                    xn = X
+                if ind is not None and set(ind) == {xn, "self.reference"}:
+                    want.add(l_)
         ok = X is not None and bool(leaves) and set(leaves) <= want and f"self.contrast_matrix.matrix[{X}.codes]" in leaves
         obl(rep, f, val[0][4] if val else f.node, "R4.2", ok, "rows of the contrast matrix are selected by the codes of that same categorical",
             "", f"self.value is built from {sorted(set(leaves) - want)[:2] or leaves[:2]}: the contrast matrix is indexed by codes of another object than "
